@@ -47,6 +47,7 @@ def size_axioms():
         ForAll([x], And(size(x) >= 1, If(isa['PureScheduler'](x), size(x) == 1 + tsum(x), size(x) == 1)),
                patterns=[size(x)]),
         ForAll([x], tsum(x) >= 0, patterns=[tsum(x)]),
+        ForAll([x], height(x) >= 0, patterns=[height(x)]),
         psum(L.EMPTY) == 0,
     ]
 
@@ -85,6 +86,9 @@ def member_numbered(cur, m, start, end):
         ForAll([x, y], Implies(And(sub(x, m), sub(y, m), x != y), idn(cur, x) != idn(cur, y)),
                patterns=[z3.MultiPattern(idn(cur, x), idn(cur, y), under(x, m), under(y, m)),
                          z3.MultiPattern(idn(cur, x), under(y, m))]),
+        ForAll([x, y], Implies(And(under(x, m), under(y, x)),
+                               And(idn(cur, x) < idn(cur, y), idn(cur, y) + size(y) <= idn(cur, x) + size(x))),
+               patterns=[z3.MultiPattern(under(x, m), under(y, x))]),
     )
 
 
@@ -135,8 +139,9 @@ c.for_props('C15', 'C20')
 c.requires('tree', _tree_pre)
 c.requires('nested-closed', _nested_closed)
 c.requires('sizes-are-the-sums-over-the-member-sets', _sum_pre)
+c.requires('format-is-none-or-a-string', lambda c: Or(c.a.id_format == NONE, L.is_str(c.a.id_format)))
 c.modifies('_sched_id', '$idnum', '_s_mark', '$ycount', '$ypos')
-c.decreases = lambda c: height(c.a.self)
+c.decreases = lambda c: 2 * height(c.a.self)
 c.requires('tree-axioms', lambda c: And(tree_axioms()))
 c.requires('size-definitions', lambda c: And(size_axioms()))
 
@@ -159,11 +164,12 @@ def _ids_post(c):
                                                                 idn(cur, rq) < idn(cur, j)),
                                                patterns=[z3.MultiPattern(member(c.pre, S, j), E(c.pre, j, rq))])),
         ('frame', ids_frame(c.pre, cur, lambda o: under(o, S))),
+        ('frame[_s_mark]', unchanged_field(c.pre, cur, '_s_mark', lambda o: under(o, S))),
     ]
 
 
 for _lab in ('next-index', 'all-in-range', 'nested-after-their-scheduler', 'tree-wide-unique',
-             'requirements-numbered-first', 'frame'):
+             'requirements-numbered-first', 'frame', 'frame[_s_mark]'):
     c.ensures(_lab, (lambda lab: lambda c: dict(c.memo('ids-post', lambda: _ids_post(c)))[lab])(_lab))
 c.raises('Exception', 'only-when-cyclic', lambda c: z3.BoolVal(True))
 
@@ -198,11 +204,12 @@ def _ids_inv(c):
                                                        And(Select(Vis, rq), idn(cur, rq) < idn(cur, m))),
                                       patterns=[z3.MultiPattern(Select(Vis, m), E(c.pre, m, rq))])),
         ('frame', ids_frame(c.pre, cur, lambda o: under(o, S))),
+        ('frame[_s_mark]', unchanged_field(c.pre, cur, '_s_mark', lambda o: under(o, S))),
     ]
 
 
 _INV_LABELS = ['next-index', 'visited-in-range', 'subtrees-inside', 'nested-intervals', 'visited-disjoint',
-               'unique-inside-each', 'requirements-first', 'frame']
+               'unique-inside-each', 'requirements-first', 'frame', 'frame[_s_mark]']
 
 
 def _ids_hints(h, e):
@@ -226,14 +233,71 @@ c.requires('nested-closed', _nested_closed)
 c.requires('sizes-are-the-sums-over-the-member-sets', _sum_pre)
 c.requires('self-is-a-job', lambda c: And(isa['Scheduler'](c.a.self), c.pre.alive(c.a.self)))
 c.modifies('_sched_id', '$idnum', '_s_mark', '$ycount', '$ypos')
-c.decreases = lambda c: height(c.a.self) + 1
+c.decreases = lambda c: 2 * height(c.a.self) + 1
 c.requires('tree-axioms', lambda c: And(tree_axioms()))
 c.requires('size-definitions', lambda c: And(size_axioms()))
 c.ensures('subtree-numbered', lambda c: member_numbered(c.cur, c.a.self, c.a.start, c.result))
 c.ensures('frame', lambda c: ids_frame(c.pre, c.cur, lambda o: sub(o, c.a.self)))
+c.ensures('frame[_s_mark]', lambda c: unchanged_field(c.pre, c.cur, '_s_mark', lambda o: under(o, c.a.self)))
 c.raises('Exception', 'only-when-cyclic', lambda c: z3.BoolVal(True))
 
 # ---------------------------------------------------------------- PureScheduler._total_length (assumed: cosmetic)
 c = contract('PureScheduler._total_length', None, kind='env').param('self').returns('int')
 c.assumed = ['ASSUMED-CONTRACT PureScheduler._total_length: returns an integer and writes nothing (only used to choose '
              'the zero-padding width of the ids; uniqueness of the numbers does not depend on it)']
+
+# ---------------------------------------------------------------- math.log (environment; cosmetic use only)
+c = contract('math.log', None, kind='env').param('x', 'any').param('base', 'any', None).returns('real')
+c.assumed = ['ENV math.log: returns some real and writes nothing (may raise ValueError for x <= 0: only used for the '
+             'zero-padding width, after total > 9)']
+
+
+# ================================================================ iterate_jobs (C17): every node of the tree once
+def _visits(x, S, scan, self_too):
+    """x is yielded by the traversal of scheduler S"""
+    below = And(under(x, S), Or(scan, Not(isa['PureScheduler'](x))))
+    return Or(And(x == S, scan), below) if self_too else below
+
+
+def _ycount_delta(c, pred):
+    x = q()
+    return ForAll([x], c.cur.f('$ycount', x) == c.pre.f('$ycount', x) + If(pred(x), 1, 0),
+                  patterns=[c.cur.f('$ycount', x)])
+
+
+c = contract('AbstractJob._iterate_jobs', F_JOB).param('self').param('scan_schedulers', 'bool').returns('none')
+c.for_props('C17')
+c.generator = True
+c.requires('self-is-an-atomic-job', lambda c: And(isa['AbstractJob'](c.a.self), Not(isa['PureScheduler'](c.a.self))))
+c.modifies('$ycount', '$ypos')
+c.ensures('yields-itself-once', lambda c: _ycount_delta(c, lambda x: x == c.a.self))
+
+
+def _covered(Vis, x, S):
+    """x is a visited member of S or lies below one"""
+    return Or(Select(Vis, x), And(under(x, S), owner(x) != S, Select(Vis, topm(x, S))))
+
+
+def _iter_inv(c):
+    S, scan = c.a.self, c.a.scan_schedulers
+    return _ycount_delta(c, lambda x: Or(And(x == S, scan),
+                                          And(_covered(c.visited, x, S), Or(scan, Not(isa['PureScheduler'](x))))))
+
+
+for _qn, _file in (('Scheduler._iterate_jobs', F_S), ('PureScheduler.iterate_jobs', F_PS)):
+    c = contract(_qn, _file).param('self')
+    if _qn.endswith('.iterate_jobs'):
+        c.param('scan_schedulers', 'bool', False)
+    else:
+        c.param('scan_schedulers', 'bool')
+    c.returns('none')
+    c.for_props('C17')
+    c.generator = True
+    c.requires('tree', lambda c: wf_tree(c.pre, c.a.self))
+    c.requires('tree-axioms', lambda c: And(tree_axioms()))
+    c.requires('heights', lambda c: (lambda x: ForAll([x], height(x) >= 0, patterns=[height(x)]))(q()))
+    c.modifies('$ycount', '$ypos')
+    c.decreases = lambda c: height(c.a.self)
+    c.ensures('every-node-of-the-tree-exactly-once', lambda c: _ycount_delta(
+        c, lambda x: _visits(x, c.a.self, c.a.scan_schedulers, True)))
+    c.loop(0, inv=[('visited-subtrees-yielded-once', _iter_inv)])
